@@ -9,8 +9,7 @@ sources, and for each one, in a scratch worktree of /repo HEAD (never /repo itse
   1. applies the mutation; a mutant that does not build is dropped;
   2. runs the quick tier of the checks mapped to the mutated file (VERIF_REPO=<worktree>, a private
      copy of /verif), stopping at the first check that reports a violation;
-  3. for a mutant no mapped check reports, runs pierrec/lz4's own suite (is it killed there?) and then
-     every remaining check.
+  3. for a mutant no mapped check reports, runs pierrec/lz4's own suite (is it killed there?).
 Results: <outdir>/results.jsonl, one patch per mutant in <outdir>/patches/.  Survivors that the
 suite does not kill either are the interesting ones: equivalent mutants or holes.
 """
@@ -81,7 +80,7 @@ def work(lane, jobs, outdir, base_fail, lock):
             sh([GOMUT, "-apply", str(idx), os.path.join(wt, f)])
             rc, diff = sh(["git", "diff"], cwd=wt)
             open(os.path.join(outdir, "patches", "m%03d.diff" % k), "w").write(diff)
-            rc, out = sh("go build ./... && go vet -tags verif . ./internal/... >/dev/null 2>&1; go build -tags verif ./...", cwd=wt)
+            rc, out = sh("go build ./... && go build -tags verif ./... && go build -tags verif,noasm ./...", cwd=wt)
             if rc != 0:
                 res["outcome"] = "does-not-build"
             else:
@@ -96,19 +95,13 @@ def work(lane, jobs, outdir, base_fail, lock):
                     if rc == 1 and sig:
                         res.update(outcome="detected", by=p, signature=sig)
                         break
+                    if rc not in (0, 1):
+                        res.update(outcome="check-broken", by=p)
+                        break
                 else:
                     fs = suite_failset(wt)
                     res["suite_kills"] = sorted(fs - base_fail)[:5]
-                    for p in ALL:
-                        if p in MAP[f].split():
-                            continue
-                        rc, sig = run_check(vdir, wt, p)
-                        tried.append([p, rc])
-                        if rc == 1 and sig:
-                            res.update(outcome="detected-by-unmapped", by=p, signature=sig)
-                            break
-                    else:
-                        res["outcome"] = "survived"
+                    res["outcome"] = "survived"
                 res["tried"] = tried
         finally:
             sh(["git", "-C", "/repo", "worktree", "remove", "--force", wt])
@@ -130,7 +123,8 @@ def main():
             sites.append((f, int(i), int(line), desc))
     rnd = random.Random(seed)
     rnd.shuffle(sites)
-    jobs = list(enumerate(sites[:n]))
+    skip = int(sys.argv[5]) if len(sys.argv) > 5 else 0
+    jobs = list(enumerate(sites[:n]))[skip:]
     wt = "/tmp/am/base"
     shutil.rmtree(wt, ignore_errors=True)
     os.makedirs("/tmp/am", exist_ok=True)
